@@ -224,7 +224,7 @@ register('C07', corr=abi_corr('dec'),
 
 # ------------------------------------------------------------------ trace-based correspondence (contracts in the VM)
 
-def trace_corr(mode, module, ntraces, relevant, rule, nontrivial, corpus_dir=None):
+def trace_corr(mode, module, ntraces, relevant, rule, nontrivial, corpus_dir=None, monitor=None):
     """mode: harness mode; module: tools/<module>.py with write_case_file(path, traces);
     relevant(step_op, code) -> bool: is a mismatch with these bits inside the property's projection."""
     def corr(ctx, cid, tier, seed):
@@ -281,6 +281,13 @@ def trace_corr(mode, module, ntraces, relevant, rule, nontrivial, corpus_dir=Non
                             monitor_failures.append(item)
                         else:
                             warnings.append({'trace': tr.get('trace'), 'step': k, 'code': code, 'op': st['op']['op']})
+        # property monitors on the implementation's own observations (independent of the model's step function)
+        if monitor:
+            for tr in traces:
+                for f in monitor(tr, cid):
+                    monitor_failures.append({'trace': tr.get('trace'), 'step': f['step'], 'code': 32, 'op': f['op'], 'impl': f['impl'],
+                                             'why': 'property monitor: ' + f['what'], 'known_classes': f['known_classes'],
+                                             'history': {'init': tr['init'], 'steps': tr['steps'][:f['step']]}})
         seen = set(); nt = 0
         for tr in traces:
             key = hashlib.sha1(json.dumps(tr['steps'], sort_keys=True).encode()).hexdigest()
@@ -348,6 +355,34 @@ GAS_RULE = ('histories generated by harness/src/gas_mode.rs (seed=VERIF_SEED): t
 register('C15', corr=trace_corr('gas', 'gascases', (60, 2000), lambda op, code: code & 29, GAS_RULE, tm_nontrivial),
          assumptions=['receivers are user accounts (a non-payable contract as receiver would make the transfer fail in the protocol)',
                       'zero-amount ESDT refunds are not generated'])
+
+
+GOV_RULE = ('histories generated by harness/src/gov_mode.rs (seed=VERIF_SEED): gateway + governance; commands (schedule / cancel / approve / cancel-approval) approved at the real gateway '
+            'with real ed25519 proofs and executed, including forged source chain / address, unapproved, replayed, tampered, zero-target, malformed payloads; executeProposal / '
+            'executeOperatorProposal at times around the eta with payments none / EGLD / one / several ESDTs (repeated token); the dispatched call and its callback are separate '
+            'harness-scheduled steps with other transactions (cancel, re-schedule, second execute, withdrawals) placed in both windows, both outcomes; every 8th trace is a directed '
+            'cancel-while-in-flight schedule. Every step compares status, events, governance and gateway storage diffs and balance diffs with the Coq model; Python monitors restate '
+            'C11/C12/C16 over the implementation observations. distinct = distinct operation sequences; non-trivial = at least one accepted dispatch and one rejected operation')
+
+
+def gov_nontrivial(tr):
+    disp = [s for s in tr['steps'] if s['op']['op'] in ('execProposal', 'execOperator') and s['res']['ok']]
+    rej = [s for s in tr['steps'] if not s['res']['ok']]
+    return bool(disp) and bool(rej)
+
+
+def _govmon(tr, cid):
+    import govmon
+    return govmon.monitor(tr, cid)
+
+
+register('C11', corr=trace_corr('gov', 'govcases', (48, 1500), lambda op, code: op['op'] in ('execute', 'execProposal', 'callback', 'deliver') and code & 9, GOV_RULE, gov_nontrivial, monitor=_govmon),
+         assumptions=['callbacks run to completion (gas metering is not modelled)', 'now + minimum delay below 2^64 (u64 addition)',
+                      'the external target contract is abstracted to an outcome (success with return data / failure)'])
+register('C12', corr=trace_corr('gov', 'govcases', (48, 1500), lambda op, code: op['op'] in ('execute', 'execOperator', 'transferOp', 'withdraw', 'callback', 'gwApprove') and code & 25, GOV_RULE, gov_nontrivial, monitor=_govmon),
+         assumptions=['callbacks run to completion (gas metering is not modelled)', 'collision freedom of keccak only where C02 states it'])
+register('C16', corr=trace_corr('gov', 'govcases', (48, 1500), lambda op, code: op['op'] in ('callback', 'withdrawRefund', 'execProposal', 'execOperator') and code & 25, GOV_RULE, gov_nontrivial, monitor=_govmon),
+         assumptions=['whether the contract still holds the credited funds when a proposal has meanwhile moved them is outside the property'])
 
 
 # ------------------------------------------------------------------ replay
